@@ -56,6 +56,20 @@ def fz(v) -> str:
     return str(v)
 
 
+class Handle:
+    """An argument that is not a plain value: holds a lock (cannot be copied or pickled) and is compared by identity,
+    like a connection or a client object.  Prints as H<name>."""
+
+    def __init__(self, name: str):
+        import threading
+        self.name, self.lock = name, threading.Lock()
+
+    def __repr__(self) -> str:
+        return f"H<{self.name}>"
+
+    __str__ = __repr__
+
+
 def input_value(name: str, desc: dict):
     if "scalar" in desc:
         return desc["scalar"]
